@@ -14,6 +14,17 @@ class FragmentSequenceNumber(BitsInterface):
         ), f"FSN value out of range 0b0000-0b1111 got {bin(value)}"
         self.value: int = value
 
+    def __eq__(self, other) -> bool:
+        # value equality, also with the plain number the constructors accept in its place
+        if isinstance(other, FragmentSequenceNumber):
+            return self.value == other.value
+        if isinstance(other, int) and not isinstance(other, bool):
+            return self.value == other
+        return NotImplemented
+
+    def __hash__(self) -> int:
+        return hash(self.value)
+
     def is_last(self) -> bool:
         return (
             # single (last) unconfirmed fragment
